@@ -705,10 +705,10 @@ impl Story {
         {
             let found_value: Rc<Value>; // Explicit read count value
             if var_ref.path_for_count.is_some() {
-                let container = var_ref.get_container_for_count();
-                let count = self
-                    .get_state_mut()
-                    .visit_count_for_container(container.as_ref().unwrap());
+                let container = var_ref
+                    .get_container_for_count()
+                    .map_err(StoryError::InvalidStoryState)?;
+                let count = self.get_state_mut().visit_count_for_container(&container);
                 found_value = Rc::new(Value::new::<i32>(count));
             }
             // Normal variable reference
